@@ -127,7 +127,11 @@ impl<'a> WindowsComponents<'a> {
     pub fn has_any_verbatim_prefix(&self) -> bool {
         matches!(
             self.prefix_kind(),
-            Some(WindowsPrefix::Verbatim(_) | WindowsPrefix::UNC(..) | WindowsPrefix::Disk(_))
+            Some(
+                WindowsPrefix::Verbatim(_)
+                    | WindowsPrefix::VerbatimUNC(..)
+                    | WindowsPrefix::VerbatimDisk(_)
+            )
         )
     }
 
